@@ -23,11 +23,10 @@ CXX_DEFS = ["-DNSYNC_USE_CPP11_TIMEPOINT", "-DNSYNC_ATOMIC_CPP11"]
 def clang_ast(repo, src, lang, filters=None, extra=None):
     """Return list of top-level decl nodes."""
     if lang == "c":
-        cmd = ["clang", "-x", "c", "-fsyntax-only", "-w"] + ["-I%s/%s" % (repo, i) for i in C_INC]
+        cmd = ["clang", "-x", "c", "-fsyntax-only", "-w"] + (extra or []) + ["-I%s/%s" % (repo, i) for i in C_INC]
     else:
         cmd = ["clang++", "-x", "c++", "-std=c++11", "-fsyntax-only", "-w"] + CXX_DEFS + \
               ["-I%s/%s" % (repo, i) for i in CXX_INC]
-    cmd += (extra or [])
     cmd += ["-Xclang", "-ast-dump=json"]
     docs = []
     if filters:
